@@ -181,3 +181,35 @@ func VerifH_C16_two() {
 	}
 	vCover("C16.two.both", err1 == nil && err2 == nil)
 }
+
+// The default limit of ReadFrameFrom does not depend on who used the pooled
+// frame header before: a reader with another limit (any 32-bit value, 0 = no
+// limit) reads a PING frame and hands the header back; the next ReadFrameFrom
+// refuses a frame whose declared length is 16385, 20000 or 65536 octets with
+// FRAME_SIZE_ERROR, before it reads anything of it.
+//
+//verif:harness prop=C16,C18 unwind=40 timeout=300
+func VerifH_C16_poollimit() {
+	other := vU32()
+	vAssume(other == 0 || other >= 8)
+	ping := vFrame(0x6, 0x0, 0, []byte{1, 2, 3, 4, 5, 6, 7, 8})
+	fr, err := ReadFrameFromWithSize(vNewReader(ping), other)
+	vAssert(err == nil, "C16.poollimit.first-read")
+	if err == nil {
+		ReleaseFrameHeader(fr)
+	}
+	// (the declared length is one of three values rather than any: a reader
+	// that lets the frame through allocates that much)
+	length := [3]uint32{16385, 20000, 65536}[vRange(0, 2)]
+	hdr := vBytes(9)
+	vAssume(hdr[3] <= 9)
+	vAssume(hdr[0] == byte(length>>16) && hdr[1] == byte(length>>8) && hdr[2] == byte(length))
+	fr, err = ReadFrameFrom(vNewReader(hdr))
+	vAssert(fr == nil && err != nil, "C16.poollimit.default-limit-in-force")
+	if e, ok := err.(Error); ok {
+		vAssert(e.Code() == FrameSizeError, "C16.poollimit.code")
+	} else {
+		vAssert(false, "C16.poollimit.error-type")
+	}
+	vCover("C16.poollimit.after-a-larger-limit", other > 1<<20)
+}
